@@ -265,3 +265,487 @@ Lemma old_bodyless_refuted :
   exists i, dec_C27 i <> None /\
     prop_C27 i (VB (old_exchange_of i)) = false /\ prop_C27 i (run_C27 i) = true.
 Proof. exists witness_204. split; [discriminate|]. split; vm_compute; reflexivity. Qed.
+
+
+(* ---------- header lists ---------- *)
+Lemma bytes_eqb_refl a : bytes_eqb a a = true.
+Proof. apply bytes_eqb_eq. reflexivity. Qed.
+Lemma bytes_ltb_irrefl a : bytes_ltb a a = false.
+Proof. induction a as [|x a IH]; [reflexivity|]. cbn. rewrite Z.ltb_irrefl. exact IH. Qed.
+Lemma key_is_eq k kv : key_is k kv = true -> fst kv = k.
+Proof. unfold key_is. intro H. apply bytes_eqb_eq in H. congruence. Qed.
+Lemma get_all_cons k kv l : get_all k (kv :: l) = if key_is k kv then snd kv :: get_all k l else get_all k l.
+Proof. unfold get_all. cbn [filter]. destruct (key_is k kv); reflexivity. Qed.
+Lemma get_all_insert k kv l :
+  get_all k (insert_field kv l) = if key_is k kv then snd kv :: get_all k l else get_all k l.
+Proof.
+  induction l as [|x l IH]; cbn [insert_field].
+  - rewrite get_all_cons. reflexivity.
+  - destruct (bytes_ltb (fst x) (fst kv)) eqn:E.
+    + rewrite !get_all_cons, IH. destruct (key_is k kv) eqn:Ek, (key_is k x) eqn:Ex; try reflexivity.
+      apply key_is_eq in Ek, Ex. rewrite Ek, Ex, bytes_ltb_irrefl in E. discriminate.
+    + rewrite get_all_cons. reflexivity.
+Qed.
+Lemma get_all_sort k l : get_all k (sort_fields l) = get_all k l.
+Proof.
+  induction l as [|x l IH]; [reflexivity|]. unfold sort_fields in *. cbn [fold_right].
+  rewrite get_all_insert, IH, get_all_cons. reflexivity.
+Qed.
+Lemma in_insert kv x l : In x (insert_field kv l) <-> x = kv \/ In x l.
+Proof.
+  induction l as [|y l IH]; cbn [insert_field].
+  - cbn. intuition.
+  - destruct (bytes_ltb (fst y) (fst kv)); cbn [In]; rewrite ?IH; intuition.
+Qed.
+Lemma in_sort x l : In x (sort_fields l) <-> In x l.
+Proof.
+  induction l as [|y l IH]; [reflexivity|]. unfold sort_fields in *. cbn [fold_right].
+  rewrite in_insert, IH. cbn. intuition.
+Qed.
+Lemma forallb_sort (P : bytes * bytes -> bool) l : forallb P l = true -> forallb P (sort_fields l) = true.
+Proof. rewrite !forallb_forall. intros H x Hx. apply H. apply in_sort. exact Hx. Qed.
+Lemma forallb_del (P : bytes * bytes -> bool) X l : forallb P l = true -> forallb P (del_key X l) = true.
+Proof. rewrite !forallb_forall. intros H x Hx. apply H. unfold del_key in Hx. apply filter_In in Hx. tauto. Qed.
+Lemma get_all_del_other k X l : bytes_eqb X k = false -> get_all k (del_key X l) = get_all k l.
+Proof.
+  intro H. unfold del_key. induction l as [|x l IH]; [reflexivity|]. cbn [filter].
+  destruct (key_is X x) eqn:EX; cbn [negb].
+  - rewrite get_all_cons, IH. destruct (key_is k x) eqn:Ek; [|reflexivity].
+    apply key_is_eq in EX, Ek. rewrite <- EX, <- Ek, bytes_eqb_refl in H. discriminate.
+  - rewrite !get_all_cons, IH. reflexivity.
+Qed.
+Lemma get_all_del_same X l : get_all X (del_key X l) = [].
+Proof.
+  unfold del_key. induction l as [|x l IH]; [reflexivity|]. cbn [filter].
+  destruct (key_is X x) eqn:EX; cbn [negb]; [exact IH|]. rewrite get_all_cons, EX. exact IH.
+Qed.
+Lemma has_key_get_all k l : has_key k l = match get_all k l with [] => false | _ => true end.
+Proof.
+  unfold has_key. induction l as [|x l IH]; [reflexivity|]. cbn [existsb]. rewrite get_all_cons.
+  destruct (key_is k x); [reflexivity|exact IH].
+Qed.
+Lemma get_all_app k a b : get_all k (a ++ b) = get_all k a ++ get_all k b.
+Proof. unfold get_all. rewrite filter_app, map_app. reflexivity. Qed.
+Lemma get_all_map k (g : bytes -> bytes) l :
+  get_all k (map (fun kv => (fst kv, g (snd kv))) l) = map g (get_all k l).
+Proof.
+  induction l as [|x l IH]; [reflexivity|]. cbn [map]. rewrite !get_all_cons.
+  unfold key_is at 1. cbn [fst snd]. fold (key_is k x). destruct (key_is k x); cbn [map]; rewrite IH; reflexivity.
+Qed.
+Lemma concat_filter_nonempty (ps : list bytes) : concat (filter (fun p => negb (is_empty p)) ps) = concat ps.
+Proof.
+  induction ps as [|p ps IH]; [reflexivity|]. cbn [filter]. destruct p as [|b p]; cbn [is_empty negb concat]; [exact IH|].
+  rewrite IH. reflexivity.
+Qed.
+
+(* ---------- response.write accepts everything when the body is allowed and fits the declared length ---------- *)
+Lemma accept_all : forall ps clen written,
+  (clen = -1 \/ written + blen (concat ps) <= clen) ->
+  accept_writes true clen written ps =
+  (filter (fun p => negb (is_empty p)) ps, written + blen (concat ps), false).
+Proof.
+  induction ps as [|p ps IH]; intros clen written H.
+  - cbn. f_equal. f_equal. unfold blen. cbn. lia.
+  - cbn [accept_writes filter concat]. destruct p as [|b p].
+    + cbn [is_empty negb app]. apply IH. exact H.
+    + cbn [is_empty negb]. set (pp := b :: p) in *.
+      assert (Hl : blen (pp ++ concat ps) = blen pp + blen (concat ps)).
+      { unfold blen. rewrite app_length. lia. }
+      assert (Hp : 0 <= blen (concat ps)) by (unfold blen; lia).
+      cbv zeta. cbn [concat] in H. rewrite Hl in H. assert (Hpp : 0 < blen pp) by (unfold blen, pp; cbn [length]; lia).
+      replace (negb (clen =? -1) && (clen <? written + blen pp)) with false by lia.
+      rewrite IH by lia. rewrite Hl. f_equal. f_equal. lia.
+Qed.
+Lemma accept_none : forall ps clen written,
+  fst (fst (accept_writes false clen written ps)) = [].
+Proof.
+  induction ps as [|p ps IH]; intros clen written; [reflexivity|].
+  cbn [accept_writes]. destruct (is_empty p); [apply IH|reflexivity].
+Qed.
+
+(* ---------- the 512-byte bufio in front of the chunkWriter ---------- *)
+Lemma bufio_write_spec : forall fuel buffered p ws b,
+  bufio_write fuel buffered p = (ws, b) ->
+  concat ws ++ b = buffered ++ p /\ forallb (fun d => negb (is_empty d)) ws = true.
+Proof.
+  induction fuel as [|f IH]; intros buffered p ws b H.
+  - cbn in H. inversion H; subst. split; reflexivity.
+  - cbn [bufio_write] in H.
+    destruct (blen p <=? bufsz - blen buffered) eqn:E1.
+    { inversion H; subst. split; reflexivity. }
+    destruct (is_empty buffered) eqn:E2.
+    { inversion H; subst. destruct buffered; [|discriminate]. cbn [concat app]. rewrite !app_nil_r. split; [reflexivity|]. cbn [forallb]. rewrite andb_true_r.
+      destruct p; [|reflexivity]. unfold bufsz, blen in E1. cbn in E1. discriminate. }
+    destruct (bufio_write f [] (skipn (Z.to_nat (bufsz - blen buffered)) p)) as [ws' b'] eqn:E3.
+    inversion H; subst. destruct (IH _ _ _ _ E3) as [I1 I2]. split.
+    + cbn [concat]. rewrite <- app_assoc, I1. cbn [app]. rewrite <- app_assoc, firstn_skipn. reflexivity.
+    + cbn [forallb]. rewrite I2. destruct buffered; [discriminate|reflexivity].
+Qed.
+Lemma bufio_writes_spec : forall ps buffered ws b,
+  bufio_writes buffered ps = (ws, b) ->
+  concat ws ++ b = buffered ++ concat ps /\ forallb (fun d => negb (is_empty d)) ws = true.
+Proof.
+  induction ps as [|p ps IH]; intros buffered ws b H.
+  - cbn in H. inversion H; subst. cbn. rewrite app_nil_r. split; reflexivity.
+  - cbn [bufio_writes] in H. destruct (bufio_write 3 buffered p) as [w1 b1] eqn:E1.
+    destruct (bufio_writes b1 ps) as [w2 b2] eqn:E2. inversion H; subst.
+    destruct (bufio_write_spec _ _ _ _ _ E1) as [A1 A2]. destruct (IH _ _ _ E2) as [B1 B2]. split.
+    + rewrite concat_app, <- app_assoc, B1. cbn [concat]. rewrite !app_assoc. f_equal. exact A1.
+    + rewrite forallb_app, A2, B2. reflexivity.
+Qed.
+
+
+(* ---------- the status line, by enumeration of the 2 x 500 (version, code) pairs ---------- *)
+Definition sl_body (m c : Z) : bytes := s_http1 ++ [48 + m] ++ [32] ++ dec_of_Z c ++ [32] ++ reason c.
+Definition sl_check (m c : Z) : bool :=
+  no_crlf (sl_body m c) &&
+  match parse_status_line (sl_body m c) with Some (m', c') => (m' =? m) && (c' =? c) | None => false end.
+Lemma sl_check_all : forallb (fun k => sl_check 0 (100 + Z.of_nat k) && sl_check 1 (100 + Z.of_nat k)) (seq 0 500) = true.
+Proof. vm_compute. reflexivity. Qed.
+Lemma status_line_ok m c : (m = 0 \/ m = 1) -> 100 <= c <= 599 ->
+  status_line m c = sl_body m c ++ crlf /\ no_crlf (sl_body m c) = true /\ parse_status_line (sl_body m c) = Some (m, c).
+Proof.
+  intros Hm Hc. split.
+  { unfold status_line, sl_body. rewrite <- !app_assoc. reflexivity. }
+  pose proof sl_check_all as H. rewrite forallb_forall in H.
+  specialize (H (Z.to_nat (c - 100))). rewrite in_seq in H.
+  assert (Hin : (0 <= Z.to_nat (c - 100) < 0 + 500)%nat) by lia. specialize (H Hin).
+  replace (100 + Z.of_nat (Z.to_nat (c - 100))) with c in H by lia.
+  apply andb_true_iff in H. destruct H as [H0 H1].
+  assert (Hs : sl_check m c = true) by (destruct Hm; subst; assumption).
+  unfold sl_check in Hs. apply andb_true_iff in Hs. destruct Hs as [Hs1 Hs2]. split; [exact Hs1|].
+  destruct (parse_status_line (sl_body m c)) as [[m' c']|]; [|discriminate].
+  apply andb_true_iff in Hs2. destruct Hs2 as [E1 E2]. apply Z.eqb_eq in E1, E2. subst. reflexivity.
+Qed.
+
+(* ---------- sanitised values have no line breaks ---------- *)
+Lemma in_trim_left f x l : In x (trim_left f l) -> In x l.
+Proof.
+  induction l as [|y l IH]; [intros []|]. cbn [trim_left]. destruct (f y); [intro H; right; apply IH; exact H|tauto].
+Qed.
+Lemma in_trim f x l : In x (trim f l) -> In x l.
+Proof.
+  unfold trim, trim_right. intro H. apply in_rev in H. apply in_trim_left in H. apply in_rev in H.
+  apply in_trim_left in H. exact H.
+Qed.
+Lemma sanitize_no_crlf v : no_crlf (sanitize_value v) = true.
+Proof.
+  unfold no_crlf, sanitize_value. apply forallb_forall. intros x Hx. apply in_trim in Hx.
+  apply in_map_iff in Hx. destruct Hx as [b [Hb _]]. subst x.
+  destruct ((b =? 10) || (b =? 13)) eqn:E; lia.
+Qed.
+
+(* ---------- the header block ---------- *)
+Definition san (kv : bytes * bytes) : bytes * bytes := (fst kv, sanitize_value (snd kv)).
+Lemma write_subset_lines h : write_subset h = concat (map line (map san (sort_fields h))).
+Proof. unfold write_subset. rewrite map_map. reflexivity. Qed.
+Lemma lines_length L : (length L <= length (concat (map line L)))%nat.
+Proof.
+  induction L as [|kv L IH]; [cbn; lia|]. cbn [map concat length]. rewrite app_length.
+  unfold line at 1. rewrite !app_length. unfold colon_sp. cbn [length]. lia.
+Qed.
+Definition fs_of (h5 extra : fields) : fields := map parsed (map san (sort_fields h5) ++ extra).
+Lemma parse_head is_head m c h5 extra rest :
+  (m = 0 \/ m = 1) -> 100 <= c <= 599 ->
+  forallb (fun kv => is_token (fst kv)) h5 = true -> forallb good_kv extra = true ->
+  ref_parse is_head (status_line m c ++ write_subset h5 ++ concat (map write_raw_field extra) ++ crlf ++ rest)
+  = ref_parse_body is_head m c (fs_of h5 extra) rest.
+Proof.
+  intros Hm Hc Hk He. destruct (status_line_ok m c Hm Hc) as [S1 [S2 S3]].
+  unfold ref_parse. rewrite S1, <- app_assoc. unfold crlf at 1. cbn [app].
+  rewrite (split_crlf_app _ _ S2), S3.
+  rewrite write_subset_lines.
+  change (map write_raw_field extra) with (map line extra).
+  rewrite app_assoc, <- concat_app, <- map_app. unfold crlf. cbn [app].
+  set (L := map san (sort_fields h5) ++ extra).
+  rewrite (strict_fields_lines L).
+  - cbn [rev app]. reflexivity.
+  - unfold L. rewrite forallb_app, He, andb_true_r.
+    apply forallb_forall. intros x Hx. apply in_map_iff in Hx. destruct Hx as [kv [Hkv Hin]]. subst x.
+    unfold good_kv, san. cbn [fst snd]. rewrite sanitize_no_crlf, andb_true_r.
+    apply (proj1 (in_sort _ _)) in Hin. rewrite forallb_forall in Hk. apply Hk. exact Hin.
+  - pose proof (lines_length L). rewrite app_length. cbn [length]. lia.
+Qed.
+
+
+(* ---------- well-formed supplied headers ---------- *)
+Definition specials : list bytes := [s_cl; s_te; s_ct; s_conn; s_date].
+(* a name that equals one of the special names up to letter case is that name (header keys are canonical in Go) *)
+Definition canon_ok (k : bytes) : bool := forallb (fun X => implb (eq_fold k X) (bytes_eqb k X)) specials.
+Definition key_ok (kv : bytes * bytes) : bool := is_token (fst kv) && canon_ok (fst kv).
+Definition digits18 (v : bytes) : bool :=
+  negb (is_empty v) && forallb is_digit v && (Z.of_nat (length v) <=? 18).
+Definition wf_hdrs (h : fields) : bool :=
+  forallb key_ok h && negb (has_key s_te h) &&
+  match get_all s_cl h with [] => true | [v] => digits18 v | _ => false end.
+
+Lemma eq_fold_refl a : eq_fold a a = true.
+Proof. unfold eq_fold. apply bytes_eqb_refl. Qed.
+Lemma bytes_eqb_sym a b : bytes_eqb a b = bytes_eqb b a.
+Proof.
+  destruct (bytes_eqb a b) eqn:E1, (bytes_eqb b a) eqn:E2; try reflexivity.
+  - apply bytes_eqb_eq in E1. subst. rewrite bytes_eqb_refl in E2. discriminate.
+  - apply bytes_eqb_eq in E2. subst. rewrite bytes_eqb_refl in E1. discriminate.
+Qed.
+Lemma get_all_ci_canon X l : In X specials -> forallb (fun kv => canon_ok (fst kv)) l = true ->
+  get_all_ci X l = get_all X l.
+Proof.
+  intros HX H. unfold get_all_ci, get_all. f_equal. apply filter_ext_in. intros kv Hin.
+  rewrite forallb_forall in H. specialize (H kv Hin). unfold canon_ok in H. rewrite forallb_forall in H.
+  specialize (H X HX). unfold canon_lower_eq, key_is.
+  destruct (eq_fold (fst kv) X) eqn:E.
+  - cbn [implb] in H. rewrite bytes_eqb_sym. symmetry. exact H.
+  - destruct (bytes_eqb X (fst kv)) eqn:E2; [|reflexivity]. apply bytes_eqb_eq in E2. rewrite <- E2, eq_fold_refl in E. discriminate.
+Qed.
+Lemma get_all_fs_of X h5 extra :
+  get_all X (fs_of h5 extra) = map norm_value (get_all X h5) ++ map (trim is_space) (get_all X extra).
+Proof.
+  unfold fs_of. rewrite map_app, get_all_app. f_equal.
+  - unfold parsed, san. rewrite (get_all_map X (trim is_space)), (get_all_map X sanitize_value), get_all_sort, map_map. reflexivity.
+  - unfold parsed. apply (get_all_map X (trim is_space)).
+Qed.
+Lemma get_all_del_nil k X l : get_all k l = [] -> get_all k (del_key X l) = [].
+Proof.
+  unfold get_all, del_key. induction l as [|x l IH]; [reflexivity|]. cbn [filter].
+  destruct (key_is k x) eqn:Ek; [cbn; discriminate|]. intro H.
+  destruct (key_is X x); cbn [negb filter]; rewrite ?Ek; apply IH; exact H.
+Qed.
+Lemma in_del kv X l : In kv (del_key X l) -> In kv l.
+Proof. unfold del_key. intro H. apply filter_In in H. tauto. Qed.
+
+(* ---------- what writeHeader leaves of the supplied header ---------- *)
+Section Decision.
+Variables (q : rq) (status : Z) (h : fields) (clen : Z) (hdone : bool) (p : bytes).
+Let d := write_header sniff_text fixed_date true body_allowed_status q (false, false, false) status h clen false hdone p.
+
+Ltac wh_unfold := unfold d, write_header, wh_frame; cbn [d_fields d_extra d_chunking d_close d_clen fst snd].
+Ltac wh_split := repeat match goal with |- context [if ?b then _ else _] => destruct b end; cbn [fst snd].
+
+Lemma d_fields_in kv : In kv (d_fields d) -> In kv h.
+Proof.
+  wh_unfold. wh_split; intro H; repeat (apply in_del in H); exact H.
+Qed.
+Lemma d_fields_other k : bytes_eqb s_cl k = false -> bytes_eqb s_te k = false -> bytes_eqb s_conn k = false ->
+  (bytes_eqb s_ct k = false \/ (status =? 304) = false) -> get_all k (d_fields d) = get_all k h.
+Proof.
+  intros H1 H2 H3 H4. wh_unfold.
+  destruct (status =? 304) eqn:E304.
+  - destruct H4 as [H4|H4]; [|discriminate]. wh_split; rewrite ?get_all_del_other by assumption; reflexivity.
+  - wh_split; rewrite ?get_all_del_other by assumption; reflexivity.
+Qed.
+Lemma d_fields_nil k : get_all k h = [] -> get_all k (d_fields d) = [].
+Proof.
+  intro H. wh_unfold. wh_split; repeat (apply get_all_del_nil); exact H.
+Qed.
+End Decision.
+
+
+(* ---------- the framing scenarios of writeHeader for a response that carries a body ---------- *)
+Section Scenarios.
+Variables (q : rq) (status : Z) (h : fields) (clen : Z) (hdone : bool) (p : bytes).
+Let d := write_header sniff_text fixed_date true body_allowed_status q (false, false, false) status h clen false hdone p.
+Hypothesis Hhead : q_head q = false.
+Hypothesis Hallowed : body_allowed_status status = true.
+Hypothesis Hte : get_all s_te h = [].
+
+Ltac wh_unfold := unfold d, write_header, wh_frame; cbn [d_fields d_extra d_chunking d_close d_clen fst snd].
+Ltac wh_split := cbn [is_empty negb andb orb fst snd]; repeat (match goal with |- context [if ?b then _ else _] => destruct b end; cbn [is_empty negb andb orb fst snd]).
+Lemma st304 : (status =? 304) = false.
+Proof. unfold body_allowed_status in Hallowed. lia. Qed.
+Lemma st204 : (status =? 204) = false.
+Proof. unfold body_allowed_status in Hallowed. lia. Qed.
+Lemma te_first : get_first s_te h = [].
+Proof. unfold get_first. rewrite Hte. reflexivity. Qed.
+
+Ltac prep := wh_unfold; rewrite ?Hhead, ?st304, ?st204, ?Hallowed, ?te_first; cbn [negb orb andb is_empty].
+
+(* the supplier declared a length *)
+Lemma sc_declared v : get_all s_cl h = [v] -> v <> [] -> (clen =? -1) = false ->
+  d_chunking d = false /\ get_all s_te (d_extra d) = [] /\ get_all s_cl (d_fields d) = [v] /\
+  get_all s_cl (d_extra d) = [] /\ d_clen d = clen.
+Proof.
+  intros Hcl Hv Hc.
+  assert (Hf : is_empty (get_first s_cl h) = false).
+  { unfold get_first. rewrite Hcl. destruct v; [congruence|reflexivity]. }
+  prep. rewrite Hf, ?andb_false_r. cbn [negb andb orb is_empty fst snd]. rewrite Hc. cbn [negb andb orb fst snd].
+  repeat split.
+  - wh_split; rewrite ?get_all_app; cbn; reflexivity.
+  - wh_split; rewrite ?get_all_del_other by reflexivity; exact Hcl.
+  - wh_split; rewrite ?get_all_app; cbn; reflexivity.
+Qed.
+
+(* no declared length, the handler is done before the header is written: Content-Length is computed *)
+Lemma sc_computed : get_all s_cl h = [] -> clen = -1 -> hdone = true ->
+  d_chunking d = false /\ get_all s_te (d_extra d) = [] /\ get_all s_cl (d_fields d) = [] /\
+  get_all s_cl (d_extra d) = [dec_of_Z (blen p)] /\ d_clen d = blen p.
+Proof.
+  intros Hcl Hc Hd. subst clen hdone.
+  assert (Hf : is_empty (get_first s_cl h) = true) by (unfold get_first; rewrite Hcl; reflexivity).
+  prep. rewrite Hf. cbn [negb andb orb fst snd].
+  assert (Hp : (blen p =? -1) = false) by (unfold blen; lia). rewrite Hp. cbn [negb andb orb fst snd].
+  repeat split.
+  - wh_split; rewrite ?get_all_app; cbn; reflexivity.
+  - wh_split; repeat (apply get_all_del_nil); exact Hcl.
+  - wh_split; rewrite ?get_all_app; cbn; reflexivity.
+Qed.
+
+(* no length known when the header is written, HTTP/1.1: chunked *)
+Lemma sc_chunked : get_all s_cl h = [] -> clen = -1 -> hdone = false -> at_least_11 q = true ->
+  d_chunking d = true /\ get_all s_te (d_extra d) = [s_chunked] /\ get_all s_cl (d_fields d) = [] /\
+  get_all s_cl (d_extra d) = [] /\ d_clen d = -1.
+Proof.
+  intros Hcl Hc Hd H11. subst clen hdone.
+  prep. rewrite H11, ?Z.eqb_refl. cbn [negb andb orb fst snd]. change (is_empty s_chunked) with false. cbn iota.
+  repeat split.
+  - wh_split; rewrite ?get_all_app; cbn; reflexivity.
+  - wh_split; repeat (apply get_all_del_nil); exact Hcl.
+  - wh_split; rewrite ?get_all_app; cbn; reflexivity.
+Qed.
+
+(* no length known, HTTP/1.0: delimited by closing the connection *)
+Lemma sc_until_close : get_all s_cl h = [] -> clen = -1 -> hdone = false -> at_least_11 q = false ->
+  d_chunking d = false /\ get_all s_te (d_extra d) = [] /\ get_all s_cl (d_fields d) = [] /\
+  get_all s_cl (d_extra d) = [] /\ d_clen d = -1 /\ d_close d = true.
+Proof.
+  intros Hcl Hc Hd H11. subst clen hdone.
+  prep. rewrite H11, ?Z.eqb_refl. cbn [negb andb orb fst snd].
+  repeat split.
+  - wh_split; rewrite ?get_all_app; cbn; reflexivity.
+  - wh_split; repeat (apply get_all_del_nil); exact Hcl.
+  - wh_split; rewrite ?get_all_app; cbn; reflexivity.
+Qed.
+End Scenarios.
+
+
+(* ---------- glue ---------- *)
+Lemma digits_no_crlf l : forallb is_digit l = true -> no_crlf l = true.
+Proof. unfold no_crlf. apply forallb_impl. intros b Hb. unfold is_digit in Hb. lia. Qed.
+Lemma dec_no_crlf n : 0 <= n < 10 ^ 80 -> no_crlf (dec_of_Z n) = true.
+Proof. intro H. apply digits_no_crlf. apply parse_dec_dec_of_Z. exact H. Qed.
+Lemma blen_bound (p : bytes) : 0 <= blen p.
+Proof. unfold blen. lia. Qed.
+
+Section Glue.
+Variables (q : rq) (status : Z) (h : fields) (clen : Z) (hdone : bool) (p : bytes).
+Let d := write_header sniff_text fixed_date true body_allowed_status q (false, false, false) status h clen false hdone p.
+Ltac wh_unfold := unfold d, write_header, wh_frame; cbn [d_fields d_extra d_chunking d_close d_clen d_head fst snd].
+Ltac wh_split := cbn [is_empty negb andb orb fst snd]; repeat (match goal with |- context [if ?b then _ else _] => destruct b end; cbn [is_empty negb andb orb fst snd]).
+
+Lemma d_head_eq :
+  d_head d = status_line (q_minor q) status ++ write_subset (d_fields d) ++ concat (map write_raw_field (d_extra d)) ++ crlf.
+Proof. reflexivity. Qed.
+
+Lemma extras_good : blen p < 10 ^ 80 -> forallb good_kv (d_extra d) = true.
+Proof.
+  intro Hp. pose proof (dec_no_crlf (blen p) (conj (blen_bound p) Hp)) as Hd.
+  wh_unfold. unfold wh_conn, sniff_text.
+  wh_split; cbn [app forallb good_kv fst snd]; unfold good_kv; cbn [fst snd]; rewrite ?Hd; reflexivity.
+Qed.
+Lemma extras_canon : forallb (fun kv => canon_ok (fst kv)) (d_extra d) = true.
+Proof. wh_unfold. wh_split; reflexivity. Qed.
+
+(* a response without a body is never chunked *)
+Lemma nobody_not_chunked : q_head q || negb (body_allowed_status status) = true -> d_chunking d = false.
+Proof.
+  intro H. wh_unfold. destruct (q_head q); cbn [orb] in *; [reflexivity|].
+  destruct (status =? 304); cbn [orb]; [reflexivity|]. rewrite H, orb_true_r. reflexivity.
+Qed.
+End Glue.
+
+Lemma chunks_length ws : (length ws <= length (concat (map write_chunk ws)))%nat.
+Proof.
+  induction ws as [|w ws IH]; [cbn; lia|]. cbn [map concat length]. rewrite app_length.
+  unfold write_chunk at 1. rewrite !app_length. unfold crlf. cbn [length]. lia.
+Qed.
+Lemma in_concat_le (x : bytes) l : In x l -> blen x <= blen (concat l).
+Proof.
+  induction l as [|y l IH]; [intros []|]. intros [->|H]; cbn [concat]; unfold blen in *; rewrite app_length; [lia|].
+  specialize (IH H). lia.
+Qed.
+Lemma sanitize_digits v : forallb is_digit v = true -> norm_value v = v.
+Proof.
+  intro H. unfold norm_value, sanitize_value.
+  assert (Hm : map (fun b => if (b =? 10) || (b =? 13) then 32 else b) v = v).
+  { induction v as [|b v IH]; [reflexivity|]. cbn [forallb] in H. apply andb_true_iff in H. destruct H as [H1 H2].
+    cbn [map]. rewrite (IH H2). unfold is_digit in H1. replace ((b =? 10) || (b =? 13)) with false by lia. reflexivity. }
+  rewrite Hm. rewrite (digits_trim is_trim_byte v); [|intros b Hb; unfold is_digit, is_trim_byte in *; lia|exact H].
+  apply digits_trim; [intros b Hb; unfold is_digit, is_space in *; lia|exact H].
+Qed.
+Lemma parse_int_digits v n : forallb is_digit v = true -> parse_dec v = Some n -> n < 2 ^ 63 -> parse_int v = Some n.
+Proof.
+  intros Hd Hp Hn. unfold parse_int. destruct v as [|c r]; [cbn in Hp; discriminate|].
+  cbn [forallb] in Hd. apply andb_true_iff in Hd. destruct Hd as [Hc _]. unfold is_digit in Hc.
+  replace (c =? 43) with false by lia. replace (c =? 45) with false by lia.
+  rewrite Hp. replace (n <? 2 ^ 63) with true by lia. reflexivity.
+Qed.
+
+
+(* ---------- the body part of the reference parse, by framing scenario ---------- *)
+Lemma accept_sub a : forall ps clen w, blen (concat (fst (fst (accept_writes a clen w ps)))) <= blen (concat ps).
+Proof.
+  induction ps as [|p ps IH]; intros clen w; [apply Z.le_refl|]. cbn [accept_writes].
+  destruct (is_empty p) eqn:E.
+  - destruct p; [|discriminate]. cbn [concat app]. apply IH.
+  - destruct (negb a); [cbn [fst concat]; change (blen []) with 0; apply blen_bound|]. cbv zeta.
+    destruct (negb (clen =? -1) && (clen <? w + blen p)); [cbn [fst concat]; change (blen []) with 0; apply blen_bound|].
+    specialize (IH clen (w + blen p)). destruct (accept_writes a clen (w + blen p) ps) as [[acc w2] e].
+    cbn [fst concat] in *. unfold blen in *. rewrite !app_length. lia.
+Qed.
+
+Definition mkp (m st : Z) (fs : fields) (fr : Z) (b : bytes) (c : bool) (t : bytes) : presp :=
+  {| p_minor := m; p_status := st; p_fields := fs; p_framing := fr; p_body := b; p_complete := c; p_rest := t |}.
+
+Section Body.
+Variables (m status : Z) (h5 extra : fields) (tail : bytes).
+Hypothesis Hallowed : body_allowed_status status = true.
+Hypothesis Hcanon5 : forallb (fun kv => canon_ok (fst kv)) h5 = true.
+Hypothesis Hcanone : forallb (fun kv => canon_ok (fst kv)) extra = true.
+Hypothesis Hte5 : get_all s_te h5 = [].
+
+Lemma fs_canon : forallb (fun kv => canon_ok (fst kv)) (fs_of h5 extra) = true.
+Proof.
+  unfold fs_of. apply forallb_forall. intros x Hx. apply in_map_iff in Hx. destruct Hx as [y [Hy Hin]]. subst x.
+  unfold parsed. cbn [fst]. apply in_app_or in Hin. destruct Hin as [Hin|Hin].
+  - apply in_map_iff in Hin. destruct Hin as [z [Hz Hin]]. subst y. unfold san. cbn [fst].
+    apply (proj1 (in_sort _ _)) in Hin. rewrite forallb_forall in Hcanon5. apply (Hcanon5 _ Hin).
+  - rewrite forallb_forall in Hcanone. apply (Hcanone _ Hin).
+Qed.
+Lemma te_ci : get_all_ci s_te (fs_of h5 extra) = map (trim is_space) (get_all s_te extra).
+Proof.
+  rewrite (get_all_ci_canon s_te); [|cbn; tauto|apply fs_canon]. rewrite get_all_fs_of, Hte5. reflexivity.
+Qed.
+Lemma cl_ci : get_all_ci s_cl (fs_of h5 extra) = map norm_value (get_all s_cl h5) ++ map (trim is_space) (get_all s_cl extra).
+Proof. rewrite (get_all_ci_canon s_cl); [|cbn; tauto|apply fs_canon]. apply get_all_fs_of. Qed.
+
+(* Content-Length framing: the announced value is the body length *)
+Lemma body_len v body : get_all s_te extra = [] ->
+  map norm_value (get_all s_cl h5) ++ map (trim is_space) (get_all s_cl extra) = [v] ->
+  parse_dec v = Some (blen body) ->
+  ref_parse_body false m status (fs_of h5 extra) (body ++ tail) = Some (mkp m status (fs_of h5 extra) 1 body true tail).
+Proof.
+  intros Hte Hcl Hp. unfold ref_parse_body. rewrite Hallowed. cbn [negb orb].
+  rewrite te_ci, Hte, cl_ci, Hcl. cbn [map]. rewrite Hp.
+  replace (blen body <=? blen (body ++ tail)) with true by (unfold blen; rewrite app_length; lia).
+  unfold blen. rewrite Nat2Z.id, firstn_app_len, skipn_app_len. reflexivity.
+Qed.
+(* chunked framing *)
+Lemma body_chunked ws : m = 1 -> get_all s_te extra = [s_chunked] ->
+  get_all s_cl h5 = [] -> get_all s_cl extra = [] ->
+  forallb (fun d => negb (is_empty d) && (blen d <? 16 ^ 16)) ws = true ->
+  ref_parse_body false m status (fs_of h5 extra) ((concat (map write_chunk ws) ++ last_chunk) ++ tail)
+  = Some (mkp m status (fs_of h5 extra) 2 (concat ws) true tail).
+Proof.
+  intros Hm Hte Hc5 Hce Hws. unfold ref_parse_body. rewrite Hallowed. cbn [negb orb].
+  rewrite te_ci, Hte, cl_ci, Hc5, Hce. cbn [map app]. subst m.
+  change (eq_fold (trim is_space s_chunked) s_chunked && (1 =? 1)) with true. cbn iota.
+  rewrite <- app_assoc. rewrite strict_chunks_written; [reflexivity|exact Hws|].
+  rewrite !app_length. pose proof (chunks_length ws). lia.
+Qed.
+(* delimited by the end of the connection *)
+Lemma body_until_close body : get_all s_te extra = [] -> get_all s_cl h5 = [] -> get_all s_cl extra = [] ->
+  ref_parse_body false m status (fs_of h5 extra) body = Some (mkp m status (fs_of h5 extra) 3 body true []).
+Proof.
+  intros Hte Hc5 Hce. unfold ref_parse_body. rewrite Hallowed. cbn [negb orb].
+  rewrite te_ci, Hte, cl_ci, Hc5, Hce. reflexivity.
+Qed.
+End Body.
